@@ -30,7 +30,10 @@ def expand(case):
     Lraw = gen.velgrad(case["L"])
     L, D, s = gen.normalise_velgrad(Lraw)
     if L is None:
-        return None
+        if not np.any(Lraw):
+            return None
+        # no strain but vorticity (pure spin): callers hand it over un-normalised
+        L, D, s = Lraw, np.zeros((3, 3)), 0.0
     return {
         "regime": par["regime"],
         "phase": phase,
